@@ -3,6 +3,7 @@ from fractions import Fraction
 import gen_bank as G
 import gen_hops as H
 import hops_oracles as O
+from props import c14 as C14
 ID = "C07"
 MANIFEST = {
     "text": ("Kernel-checked theorems about the model of lending_pool_handle_bankruptcy and Bank::socialize_loss, for every world, "
@@ -23,7 +24,8 @@ MANIFEST = {
 }
 THEOREMS = ["C07_only_real_bad_debt", "C07_equity_is_unweighted", "C07_only_real_bad_debt_unweighted",
             "C07_unweighted_assets_refuted", "C07_insurance_first", "C07_socialize_loss",
-            "C07_socialize_in_ledger_worlds", "C07_loss_shared_pro_rata", "C07_debt_cleared_account_disabled", "C07_who_may_call", "C07_hypotheses_hold_in_wellformed_worlds"]
+            "C07_socialize_in_ledger_worlds", "C07_loss_shared_pro_rata", "C07_debt_cleared_account_disabled", "C07_who_may_call", "C07_hypotheses_hold_in_wellformed_worlds",
+            "C07_killed_bank_permanently_shut"]
 RULE = ("level C (suite hops / hopsref, real handlers in the sim runtime): scenario stream = 1-3 depositors of very different sizes in "
         "the debt bank, insurance vault funded through collect_bank_fees to a chosen balance (0, 1, bad debt -1/=/+1, half, double), "
         "a debtor posting collateral in another bank and borrowing (a fraction or ALL of the liquidity, optionally two debtors), "
@@ -319,10 +321,13 @@ def suites(rng, tier):
              "distribution": {"cases": m, "mangled_scenarios": (m + 1) // 2, "random_handler_sequences": m // 2}},
             {"suite": "hopsref", "name": "hops-bankruptcy-accrual-reference", "lines": a, "impl_only": True,
              "distribution": {"cases": n, "note": "same scenario lines; adds the real accrue_interest applied in isolation, "
-                                                   "so that the oracle knows the share value the loss was taken from"}}]
+                                                   "so that the oracle knows the share value the loss was taken from"}},
+            C14.killed_suite(rng, {"quick": 150, "thorough": 3000, "search": 1000}[tier])]
 
 
 def nontrivial(suite, case, impl):
+    if suite == "cfgsim":
+        return C14.nontrivial(suite, case, impl)
     tr = O.Trace(case, impl)
     return tr.ok and any(op[0] == 18 and res == "OK" for op, res, *_ in O.walk(tr))
 
@@ -362,6 +367,8 @@ def slot_of(acct, b):
 
 
 def oracle(suite, case, impl):
+    if suite == "cfgsim":
+        return C14.oracle(suite, case, impl)      # 'permanently shut': no sequence of admin requests revives a killed bank
     tr = O.Trace(case, impl)
     if not tr.ok:
         return None
